@@ -824,6 +824,23 @@ def replay_replacement(sql, dn, C, field):
         return None
     owner, victim = target
     marker = Identifier('replaced_by_visitor')
+    if type(victim).__name__ in TRANSPARENT:
+        # transparent container (a CTE entry): what the walker shows to the visitor is its body; the replacement belongs in the entry's `query`
+        # field and the entry itself stays in the list
+        entry, victim = victim, victim.query
+
+        def cb(node, **kw):
+            if node is victim:
+                return marker
+        try:
+            query_traversal(tree, cb)
+        except Exception as e:
+            return {'input': sql, 'dialect': dn, 'fires': True, 'observed': f'{type(e).__name__}: {e}', 'expected': 'replacement'}
+        v = getattr(owner, field, None) or []
+        if not (any(k is entry for k in v) and entry.query is marker):
+            return {'input': sql, 'dialect': dn, 'fires': True, 'observed': f'after the visitor returned a replacement for the body of {C.__name__}.{field} entry `{entry}` the slot holds {[str(k) for k in v][:3]}',
+                    'expected': 'the same entry with the replacement as its body'}
+        return None
 
     def cb(node, **kw):
         if node is victim:
